@@ -1023,7 +1023,18 @@ impl<Front: SocketHandler + std::fmt::Debug, L: ListenerHandler + L7ListenerHand
                         dead_backends.push(*token);
                     }
 
-                    if !client.readiness().filter_interest().is_empty() {
+                    // A hung-up backend that is kept only because its buffered
+                    // response still waits on the frontend (buffer pressure) has
+                    // nothing to do until the frontend drains: its sticky
+                    // HUP/ERROR bit alone must not keep this loop spinning up to
+                    // MAX_LOOP_ITERATIONS, which kills the whole session. It is
+                    // closed on a later pass, once the pressure is gone.
+                    let pending = client.readiness().filter_interest();
+                    let parked_dead = dead
+                        && !pending.is_readable()
+                        && !pending.is_writable()
+                        && !dead_backends.contains(token);
+                    if !pending.is_empty() && !parked_dead {
                         all_backends_readiness_are_empty = false;
                     }
                 }
